@@ -4,6 +4,7 @@ import GoLevel.Driver.Journal
 import GoLevel.Driver.Bloom
 import GoLevel.Driver.LSM
 import GoLevel.Driver.Table
+import GoLevel.Driver.Conc
 /-! `gldriver`: reads one operation per line on stdin, answers one line per operation on stdout.
 The first token selects the layer.  Core-only (must link). -/
 open GoLevel GoLevel.Driver
@@ -11,6 +12,7 @@ open GoLevel GoLevel.Driver
 structure DState where
   it : ItState := .none
   lsm : LsmState := {}
+  conc : ConcState := {}
 
 def dispatch (st : DState) (line : String) : DState × String :=
   let toks := (line.splitOn " ").filter (· ≠ "")
@@ -22,6 +24,10 @@ def dispatch (st : DState) (line : String) : DState × String :=
   | "lsm" :: rest =>
     match handleLsm st.lsm rest with
     | some (l', out) => ({ st with lsm := l' }, out)
+    | none => (st, "bad-op")
+  | "conc" :: rest =>
+    match handleConc st.conc rest with
+    | some (c', out) => ({ st with conc := c' }, out)
     | none => (st, "bad-op")
   | "it" :: rest =>
     match handleIt st.it rest with
